@@ -539,6 +539,30 @@ fn c27_key_samples() -> i32 {
     else { println!("VIOLATION reproduced: {} ({} violations in all)", bad[0], bad.len()); 1 }
 }
 
+/// C25 stand-in for native stack depth (no verifier here has a stack model): decoding must return a value
+/// or an error, not abort the process.  Run in a child process so that the abort can be observed.
+fn c25_deep_nesting_child() -> i32 {
+    let mut bytes: Vec<u8> = Vec::with_capacity(1_000_001);
+    for _ in 0..200_000 { bytes.extend_from_slice(&[7, 1, 0, 0, 0]); }
+    bytes.push(0);
+    // a thread with the default 2 MiB stack, like any worker thread of an embedding application
+    let h = std::thread::spawn(move || { let r = nervusdb_api::PropertyValue::decode(&bytes); let ok = r.is_ok(); std::mem::forget(r); ok });
+    match h.join() { Ok(ok) => { println!("decode returned {}", if ok { "Ok" } else { "Err" }); 0 } Err(_) => 3 }
+}
+fn c25_deep_nesting() -> i32 {
+    let exe = std::env::current_exe().unwrap();
+    let out = std::process::Command::new(exe).arg("c25_deep_nesting_child").output();
+    match out {
+        Ok(o) if o.status.success() => { println!("conforms: 200000 nested list headers decode without aborting ({})", String::from_utf8_lossy(&o.stdout).trim()); 0 }
+        Ok(o) => {
+            use std::os::unix::process::ExitStatusExt;
+            println!("VIOLATION reproduced: PropertyValue::decode on 1000001 bytes ([07 01 00 00 00] x 200000 ++ [00], i.e. 200000 nested one-element lists) aborts the process instead of returning a value or an error (exit {:?}, signal {:?}: stack overflow in decode_recursive, 5 input bytes per level)", o.status.code(), o.status.signal());
+            1
+        }
+        Err(e) => { println!("could not spawn child: {e}"); 2 }
+    }
+}
+
 fn main() {
     let a: Vec<String> = std::env::args().collect();
     let code = match a.get(1).map(|s| s.as_str()) {
@@ -549,6 +573,8 @@ fn main() {
         Some("c17_truncate_every_byte") => c17_truncate_every_byte(),
         Some("c17_commit_after_tail") => c17_commit_after_tail(&[0x01, 0x02]),
         Some("c18_node_table_spill") => c18_node_table_spill(),
+        Some("c25_deep_nesting") => c25_deep_nesting(),
+        Some("c25_deep_nesting_child") => c25_deep_nesting_child(),
         Some("c27_key_samples") => c27_key_samples(),
         Some("c18_ownership_mix_quick") => c18_ownership_mix(6, 60),
         Some("c18_ownership_mix_thorough") => c18_ownership_mix(30, 120),
